@@ -7,6 +7,7 @@ import (
 	"fmt"
 	"net/url"
 	"reflect"
+	"slices"
 	"strings"
 	"sync"
 	"testing"
@@ -55,7 +56,32 @@ type Case struct {
 	Echo     bool     `json:"echo"` // query and fragment echo the first secret
 	U1       UserInfo `json:"u1"`
 	U2       UserInfo `json:"u2"`
-	ErrShape int      `json:"err_shape"` // 0 nil, 1 *url.Error, 2 wrapped *url.Error, 3 plain error, 4 *url.Error with URL=="" 
+	ErrShape int      `json:"err_shape"` // 0 nil, 1 *url.Error, 2 wrapped *url.Error, 3 plain error, 4 *url.Error with URL==""
+	// Nest describes the cause below the error above, outermost first:
+	// "url" a *url.Error of another request (its URL text carries the second
+	// userinfo), "wrap" fmt.Errorf %w, "join" errors.Join with a second
+	// error, "typednil" a nil *url.Error stored in the error interface.
+	Nest []string `json:"nest,omitempty"`
+}
+
+// buildCause builds the cause chain and returns every *url.Error in it.
+func buildCause(nest []string, otherURL string) (cause error, nested []*url.Error) {
+	cause = errors.New("inner failure")
+	for i := len(nest) - 1; i >= 0; i-- {
+		switch nest[i] {
+		case "url":
+			ne := &url.Error{Op: "Post", URL: otherURL, Err: cause}
+			nested = append(nested, ne)
+			cause = ne
+		case "wrap":
+			cause = fmt.Errorf("layer %d: %w", i, cause)
+		case "join":
+			cause = errors.Join(cause, errors.New("sibling failure"))
+		case "typednil":
+			cause = (*url.Error)(nil)
+		}
+	}
+	return cause, nested
 }
 
 func (c Case) base() (*url.URL, bool) {
@@ -127,7 +153,18 @@ func checkRedact(c Case) error {
 	}
 
 	// RedactUserinfoInURLError.
-	inner := errors.New("inner failure")
+	// A typed-nil *url.Error as the error argument itself is a caller bug, not
+	// an input; it is only generated as a cause below a real error.  Shape 3
+	// passes the cause chain itself, so a leading "url" would be the top-level
+	// error (which shape 1 covers).
+	for c.ErrShape == 3 && len(c.Nest) > 0 && (c.Nest[0] == "typednil" || c.Nest[0] == "url") {
+		c.Nest = c.Nest[1:]
+	}
+	inner, nested := buildCause(c.Nest, u2.String())
+	nestedSnap := make([]url.Error, len(nested))
+	for i, ne := range nested {
+		nestedSnap[i] = *ne
+	}
 	ue := &url.Error{Op: "Get", URL: u1.String(), Err: inner}
 	var e error
 	switch c.ErrShape {
@@ -143,12 +180,20 @@ func checkRedact(c Case) error {
 	}
 	ueSnap := *ue
 	var msgBefore string
-	if e != nil {
+	if e != nil && !slices.Contains(c.Nest, "typednil") { // (the message of a typed-nil *url.Error cannot be formatted)
 		msgBefore = e.Error()
 	}
 	urlutil.RedactUserinfoInURLError(&u1, e)
 	if !reflect.DeepEqual(u1, snap1) {
 		return fmt.Errorf("RedactUserinfoInURLError modified the URL")
+	}
+	for i, ne := range nested {
+		if *ne != nestedSnap[i] {
+			return fmt.Errorf("RedactUserinfoInURLError modified a *url.Error that is not the top-level error (cause chain %v, shape %d): %+v -> %+v", c.Nest, c.ErrShape, nestedSnap[i], *ne)
+		}
+	}
+	if len(nested) > 0 {
+		vp.Class("err-with-nested-url-error")
 	}
 	topLevel := c.ErrShape == 1 || c.ErrShape == 4
 	if topLevel && u1.User != nil {
@@ -162,7 +207,7 @@ func checkRedact(c Case) error {
 		if *ue != ueSnap {
 			return fmt.Errorf("RedactUserinfoInURLError modified an error it should leave untouched (shape %d, userinfo present: %v): %+v -> %+v", c.ErrShape, u1.User != nil, ueSnap, *ue)
 		}
-		if e != nil && e.Error() != msgBefore {
+		if e != nil && !slices.Contains(c.Nest, "typednil") && e.Error() != msgBefore {
 			return fmt.Errorf("RedactUserinfoInURLError changed the message of an error it should leave untouched: %q -> %q", msgBefore, e.Error())
 		}
 	}
@@ -224,6 +269,9 @@ var redactProp = vp.Register(vp.Prop[Case]{
 	Kind: "c16.redact", Base: 60000,
 	Gen: func(t *rapid.T) Case {
 		c := Case{U1: uiGen.Draw(t, "u1"), U2: uiGen.Draw(t, "u2"), ErrShape: rapid.IntRange(0, 4).Draw(t, "err"), Echo: rapid.IntRange(0, 4).Draw(t, "echo") == 0}
+		if rapid.IntRange(0, 2).Draw(t, "nested") == 0 {
+			c.Nest = rapid.SliceOfN(rapid.SampledFrom([]string{"url", "url", "wrap", "join", "typednil"}), 1, 3).Draw(t, "nest")
+		}
 		if rapid.IntRange(0, 3).Draw(t, "direct") == 0 {
 			c.Direct = true
 			c.Scheme = rapid.SampledFrom([]string{"", "http", "https", "mailto", "file", "a+b"}).Draw(t, "scheme")
